@@ -296,7 +296,7 @@ var c04DevsAll = []string{"wrong-password", "wrong-password-other-type", "nonce-
 	"mapkey-other-point", "mapkey-off-curve", "mapkey-infinity", "mapkey-echo", "mapkey-truncated", "mapkey-bitflip",
 	"kakey-other-point", "kakey-off-curve", "kakey-infinity", "kakey-echo", "kakey-truncated", "kakey-bitflip",
 	"token-bitflip", "token-swapped-roles", "token-truncated", "token-zero", "token-missing", "reflection-attack"}
-var c04DevsCAM = []string{"ecad-bitflip", "ecad-bad-padding", "ecad-other-scalar", "ecad-missing", "ecad-short"}
+var c04DevsCAM = []string{"ecad-bitflip", "ecad-bad-padding", "ecad-other-scalar", "ecad-negated-scalar", "ecad-doubled-scalar", "ecad-missing", "ecad-short"}
 
 func c04ReplaceDO(resp []byte, tag byte, f func(val []byte) []byte) []byte {
 	outer, err := chipsim.ParseDOs(resp)
@@ -422,7 +422,7 @@ func c04Negative(k *fw.K, cfg c04Cfg) {
 			if step == 4 {
 				return c04ReplaceDO(resp, 0x8A, func(v []byte) []byte { v[r.IntN(len(v))] ^= 1 << uint(r.IntN(8)); return v })
 			}
-		case "ecad-bad-padding", "ecad-other-scalar":
+		case "ecad-bad-padding", "ecad-other-scalar", "ecad-negated-scalar", "ecad-doubled-scalar":
 			if step == 4 {
 				return c04ReplaceDO(resp, 0x8A, func(v []byte) []byte {
 					blk := symref.Block(cfg.suite, ps.KSEnc)
@@ -444,7 +444,14 @@ func c04Negative(k *fw.K, cfg c04Cfg) {
 						pt[len(pt)-1] = 0x01
 					} else {
 						x := new(big.Int).SetBytes(ps.CAIC)
-						x.Add(x, big.NewInt(1))
+						switch cfg.dev {
+						case "ecad-negated-scalar": // n - CA_IC: the inverse point, same x-coordinate
+							x.Sub(cv.N, x)
+						case "ecad-doubled-scalar":
+							x.Lsh(x, 1)
+						default:
+							x.Add(x, big.NewInt(1))
+						}
 						x.Mod(x, cv.N)
 						pt = symref.Pad2(x.FillBytes(make([]byte, len(ps.CAIC))), 16)
 					}
